@@ -11,7 +11,7 @@ F7_KEY = "F7:non-default-index-with-node-validators"
 MINOR = ["SimpleGeometryValidator", "MultiJunctionValidator", "VNodeValidator", "MultipleCrosscutValidator", "UnderlappingSnapValidator",
          "TargetAreaSnapValidator", "StackedTracesValidator", "SharpCornerValidator"]
 DOCUMENTED = {"NULL GEOMETRY", "GEOM TYPE MULTILINESTRING", "CUTS ITSELF", "MULTI JUNCTION", "V NODE", "MULTIPLE CROSSCUTS", "UNDERLAPPING SNAP",
-              "OVERLAPPING SNAP", "TRACE UNDERLAPS TARGET AREA", "STACKED TRACES", "SHARP TURNS"}
+              "OVERLAPPING SNAP", "TRACE UNDERLAPS TARGET AREA", "STACKED TRACES", "SHARP TURNS", "EMPTY TARGET AREA"}
 
 
 def _strip_z(g):
@@ -41,6 +41,10 @@ def worker(arg):
     from fractopo.tval.trace_validation import Validation
 
     area = area_for(gdf)
+    if opts.get("area_far"):
+        from shapely.geometry import box
+
+        area = gpd.GeoDataFrame(geometry=[box(5000, 5000, 6000, 6000)])
     before = gdf.copy(deep=True)
     chosen_names = opts["chosen"]
     chosen = None if chosen_names is None else tuple(getattr(tv, n) for n in chosen_names)
@@ -62,6 +66,8 @@ def worker(arg):
         res["problems"].append("the caller's frame was modified")
     kinds = [kind_code(g) for g in gdf.geometry.values]
     res["kinds"] = kinds
+    # is the target area void of traces? (decided independently of fractopo)
+    res["area_empty"] = not any(g is not None and not g.is_empty and any(g.intersects(a) for a in area.geometry.values) for g in gdf.geometry.values)
     if out is not None:
         col = "VALIDATION_ERRORS"
         if len(out) != len(gdf) or not out.index.equals(gdf.index):
@@ -94,9 +100,10 @@ def worker(arg):
             res["geom_state"] = geom_state
     # isolated verdicts of every minor validator on the frame as it is in the second pass
     fixed = []
+    fixer_runs = chosen_names is None or "GeomTypeValidator" in chosen_names  # the merge is GeomTypeValidator's fix_method
     for g, k in zip(gdf.geometry.values, kinds):
         g = _strip_z(g)
-        fixed.append(linemerge(g) if (k == 3 and opts["allow_fix"]) else g)
+        fixed.append(linemerge(g) if (k == 3 and opts["allow_fix"] and fixer_runs) else g)
     fdf = gpd.GeoDataFrame(geometry=fixed)
     fails = []
     iso_err = None
@@ -119,7 +126,7 @@ def request(kinds, opts, fails):
     f = "|".join(f"{i}:{n}:{enc(d)}" for i, n, d in fails)
     ch = "-" if opts["chosen"] is None else ";".join(opts["chosen"])
     return (f"validate kinds={','.join(map(str, kinds))} allowfix={int(opts['allow_fix'])} chosen={ch} allowempty={int(opts['allow_empty_area'])} "
-            f"areaempty=0 fails={f}")
+            f"areaempty={int(bool(opts.get('_area_empty')))} fails={f}")
 
 
 def judge(case, r, resp, res, stream):
@@ -137,6 +144,14 @@ def judge(case, r, resp, res, stream):
         res.skipped["isolated_run_raised"] = res.skipped.get("isolated_run_raised", 0) + 1
         return
     m = parse_resp(resp)
+    if m.get("outcome") == "emptyarea":
+        rows = m.get("rows", "").split("|")
+        model_errs = [[dec(x) for x in row.split(":", 1)[1].split(";") if x] for row in rows]
+        res.distribution["empty_area_exit"] = res.distribution.get("empty_area_exit", 0) + 1
+        if model_errs != r.get("errors") or any(st != "same" for st in r.get("geom_state", [])):
+            res.disagreements.append(Disagreement(stream, case, model_errs, {"errors": r.get("errors"), "geometry": r.get("geom_state")}, True,
+                                                  "empty target area with allow_empty_area=False: every row must carry exactly the documented EMPTY TARGET AREA error, geometry unchanged"))
+        return
     if m.get("outcome") != "validated":
         res.disagreements.append(Disagreement(stream, case, resp, r.get("errors"), None, "model outcome differs"))
         return
@@ -163,12 +178,14 @@ def s09_frames(ctx):
     subsets = [None, None, None, ["GeomNullValidator", "GeomTypeValidator", "SimpleGeometryValidator", "SharpCornerValidator"],
                ["GeomTypeValidator", "UnderlappingSnapValidator", "StackedTracesValidator"], ["VNodeValidator", "MultiJunctionValidator"],
                ["GeomNullValidator", "GeomTypeValidator"]]
-    for _ in range(budget(ctx.tier, 90, 2500)):
+    for _ in range(budget(ctx.tier, 200, 3000)):
         gdf, meta = random_frame(rng)
-        opts = {"allow_fix": rng.random() < 0.6, "chosen": rng.choice(subsets), "allow_empty_area": rng.random() < 0.7}
+        opts = {"allow_fix": rng.random() < 0.6, "chosen": rng.choice(subsets), "allow_empty_area": rng.random() < 0.7, "area_far": rng.random() < 0.12}
         cases.append((gdf, opts, meta))
     with mp.get_context("fork").Pool(16) as pool:
         results = pool.map(worker, [(g, o) for g, o, _ in cases], chunksize=2)
+    for (g, o, _), r in zip(cases, results):
+        o["_area_empty"] = r.get("area_empty", False)
     reqs = [request(r["kinds"], o, r["fails"]) for (g, o, _), r in zip(cases, results)]
     resps = ctx.driver.parallel(reqs)
     for (gdf, opts, meta), r, resp in zip(cases, results, resps):
@@ -212,6 +229,7 @@ def replay(ctx, stream, case):
     gdf = _rebuild(case)
     r = worker((gdf, case["opts"]))
     res = StreamResult("replay")
+    case["opts"]["_area_empty"] = r.get("area_empty", False)
     judge(case, r, ctx.driver.batch([request(r["kinds"], case["opts"], r["fails"])])[0], res, stream)
     return res.disagreements[0] if res.disagreements else None
 
